@@ -96,6 +96,26 @@ def near_duplicate_name_sessions(seed, n):
     return out
 
 
+def reentrant_sessions(seed, n):
+    """A host function that itself calls parser.eval (own names mapping, own small budget, swallowing every Exception) is called
+    from the middle of a program that goes on evaluating lambdas afterwards: every evaluation is charged to its own call."""
+    r = random.Random(seed)
+    inner = ['1 + 1', 'undefined_name', '[1, 2, 3] | map(v => v + 1)', '[1, 2, 3, 4, 5, 6] | map(v => v * 2) | map(v => v)', 'z = 5\nz', '1 / 0',
+             'f = v => f(v)\nf(1)', 'pop([])']
+    outer = ['he()\n[1, 2, 3] | map(v => v + 1)', 'a = he()\nf = v => v * 2\n[f(1), f(2), a]', '[1, 2] | map(v => he())\n[3, 4] | map(v => v)',
+             'g = v => [v, he()]\ng(1)\n[1, 2, 3] | filter(v => v > 1)', 'sorted([3, 1, 2], v => 0 - v)\nhe()\nsorted([3, 1, 2], v => v)',
+             'he(); he()\nreduce([1, 2, 3], (a, b) => a + b)']
+    out = []
+    for _ in range(n):
+        host = {'he': {'h': 'eval', 'src': r.choice(inner), 'n': 1, 'max': r.choice([3, 5, 8, 100])}}
+        src = r.choice(outer)
+        calls = [{'src': src, 'n': 0, 'max': 1000, 'measure': True}]
+        for _ in range(r.choice([1, 2, 3])):
+            calls.append({'src': src, 'n': 0, 'max': None, 'delta': r.choice([-3, -1, 0, 0, 1, 100])})
+        out.append({'names': [{}, {}], 'host': host, 'calls': calls})
+    return out
+
+
 def cached_repeat_sessions(seed, n):
     """The same syntax tree evaluated by several eval calls under different budgets: a caching parser given the same text
     again (first generously, then at need - 1, need, need + 1 ... of the FIRST run), and host-built ast_names lambdas whose
